@@ -18,7 +18,7 @@ func init() {
 		Rule: "cases: worlds built around the Ingress/Route -> Service -> workload chain (Ingresses with default backend and rules/paths designating service ports by number or name, Routes with to / alternateBackends / with and without port.targetPort, Services with named and numbered ports and targetPorts, missing targetPort, selectors matching 0/1/several workloads, missing services, several objects per workload; workloads with TCP, defaulted and UDP container ports, named ports) under NetworkPolicies and, in a third of the cases, ANP/BANP that allow / partly allow / block an arbitrary source; " +
 			"oracle: a reference model of the chain written from the statement, composed with the C01/C02 policy model evaluated for an unlabelled pod in a namespace unknown to the input; the reported {ingress-controller} => W connection must equal the model's for every workload, absent exactly when the model's is empty, and a blocked backend must be named by a warning; " +
 			"non-trivial = the model predicts a line for some workload and the policies restrict the arbitrary source for some targeted workload, or a backend is blocked; effective = some Ingress/Route designates a port of a service that selects a workload; distinct = world hash",
-		Assumptions: []string{"an Ingress designates a service port by its number or name only; a Route by port.targetPort - a name is a service port name, a number a service targetPort - or, without it, all service ports; designations the statement leaves ambiguous are not generated (a Route number equal to another service port's `port`, a Route name equal to a targetPort name of another port)",
+		Assumptions: []string{"an Ingress designates a service port by its number or name only; a Route by port.targetPort - a name is a service port's own name or its named targetPort, a number a service targetPort - or, without it, all service ports; designations the statement leaves ambiguous are not generated (a Route number equal to another service port's `port`, a Route name or number matching more than one service port)",
 			"service selectors are non-empty maps (an empty selector is read differently by Kubernetes and the tool and the statement does not say)", "service port protocols are TCP or defaulted"},
 		NumCases:          func(tier string, _ int64) int { return tierN(tier, 3000, 60000) },
 		Run:               runC10,
@@ -151,8 +151,11 @@ func ingressModel(w *world.World, r *run.CaseResult, alt bool) (map[int]*refmode
 				sp := &sv.Ports[pi]
 				switch {
 				case rt.TargetName != "":
-					if sp.Name == rt.TargetName {
+					if sp.Name == rt.TargetName || sp.TargetName == rt.TargetName { // the service port's own name, or its named targetPort
 						des = append(des, sp)
+						if sp.Name != rt.TargetName && r != nil {
+							r.Ev("route_name_is_a_targetport_name", 1)
+						}
 					}
 				case rt.TargetNum != 0:
 					if sp.TargetNum == rt.TargetNum || (sp.TargetNum == 0 && sp.TargetName == "" && sp.Port == rt.TargetNum) {
@@ -205,13 +208,8 @@ func c10Ambiguous(w *world.World) string {
 						matches++
 					}
 				}
-				if rt.TargetName != "" {
-					if sp.TargetName == rt.TargetName && sp.Name != rt.TargetName {
-						return "route name equals the targetPort name of another service port"
-					}
-					if sp.Name == rt.TargetName {
-						matches++
-					}
+				if rt.TargetName != "" && (sp.Name == rt.TargetName || sp.TargetName == rt.TargetName) {
+					matches++
 				}
 			}
 			if matches > 1 {
